@@ -1200,7 +1200,14 @@ impl<'a> Sem<'a> {
         let before = self.untyped_uses;
         self.value(&Ty::Int, depth + 1);
         self.w(", ");
+        let l0 = self.here();
+        let before_list = self.untyped_uses;
         self.value(&Ty::List(Box::new(Ty::Int)), depth + 1);
+        if self.untyped_uses == before_list {
+            // what an operator iterates over is a list: a typed site
+            let r = (l0, self.here());
+            self.p.typed_sites.push((self.cur, r, Ty::List(Box::new(Ty::Int)), "operator-operand"));
+        }
         let operands_untyped = self.untyped_uses != before;
         self.w(", ");
         let acc = self.fresh("acc");
@@ -1256,7 +1263,12 @@ impl<'a> Sem<'a> {
         let id_range = (id_pos, self.here());
         self.w(", ");
         let before = self.untyped_uses;
+        let l0 = self.here();
         self.value(&Ty::List(Box::new(el.clone())), depth + 1);
+        if self.untyped_uses == before {
+            let r = (l0, self.here());
+            self.p.typed_sites.push((self.cur, r, Ty::List(Box::new(el.clone())), "operator-operand"));
+        }
         let var_ty = if self.untyped_uses != before { None } else { Some(el.clone()) };
         self.w(", ");
         let d = self.p.decls.len();
@@ -1298,7 +1310,12 @@ impl<'a> Sem<'a> {
         let id_range = (id_pos, self.here());
         self.w(", ");
         let before = self.untyped_uses;
+        let l0 = self.here();
         self.value(&Ty::List(Box::new(Ty::Int)), depth + 1);
+        if self.untyped_uses == before {
+            let r = (l0, self.here());
+            self.p.typed_sites.push((self.cur, r, Ty::List(Box::new(Ty::Int)), "operator-operand"));
+        }
         let var_ty = if self.untyped_uses != before { None } else { Some(Ty::Int) };
         self.w(", ");
         let d = self.p.decls.len();
